@@ -91,6 +91,44 @@ CHECKS = {
         "Trusted: the simulator's left-normalisation and shift-range computation; 'fully covered' = footprint + shift range + 1 base each side.",
         "DESIGN.md §3 C06",
     ),
+    "C08": (
+        "reference-model monitor: plain forward-backward by enumeration of all read-side vectors (float64) next to the real "
+        "GenotypeDPTable; offline GT/GL/GQ consistency checker on `whatshap genotype` output with the core table interposed; "
+        "ASan/UBSan lane",
+        "Thousands of HMM instances (single, trio, quartet; all weight/prior/recombination strata) agree with the model to 1e-9; "
+        "every call of hundreds of end-to-end runs obeys the GT/GL/GQ rule and matches what the core returned.",
+        "Trusted: the model statement (self-tested against explicit path enumeration); float32 GL storage tolerance 1e-3.",
+        "DESIGN.md §3 C08",
+    ),
+    "C10": (
+        "conservation differ over BAM records + decision-rule oracle recomputed from the alleles returned by the interposed "
+        "PhasedInputReader.read + haplotype-swap metamorphic rerun + list-file consistency",
+        "Hundreds of haplotag runs per tier on enriched BAMs (secondary/supplementary/duplicate/unmapped, old tags, regions, "
+        "read groups); every record and every tagging decision is judged.",
+        "Trusted: own VCF decoders; allele detection itself is C06's subject.",
+        "DESIGN.md §3 C10",
+    ),
+    "C15": (
+        "offline genotype-conformance checker + htslib passthrough differ + interval/naming monitor using the read-covered "
+        "heterozygous variants recorded by the interposed phase_single_individual; ASan/UBSan lane (thorough)",
+        "Hundreds of polyploid runs (ploidy 2-6, multi-allelic, collapsed haplotypes, gapped reads, coverage gaps, all -B).",
+        "Trusted: own VCF parser; only the PS encoding is used (HP is not defined for ploidy > 2).",
+        "DESIGN.md §3 C15",
+    ),
+    "C16": (
+        "differential monitor over real subprocess executions: hash-seed / thread-count / delay / repetition sweeps per "
+        "subcommand, outputs compared record-wise; probe-set iteration orders and block completion orders logged as evidence of reach",
+        "Every subcommand with an end-to-end input is executed 7-11 times per input under different hash seeds and schedules.",
+        "Sampled seeds and schedules; polyphasegenetic and learn have no usable end-to-end input in the repository.",
+        "DESIGN.md §3 C16",
+    ),
+    "C17": (
+        "history pipeline monitor: truth VCF -> haplotag -> (partial) unphase -> haplotagphase; own decoders compare exact "
+        "haplotype order and phase set with the truth and pre-phased calls with the input",
+        "Hundreds of pipelines per tier with reads confined to one phase set, full and partial unphasing.",
+        "Trusted: own VCF decoders; the simulator's truth phasing.",
+        "DESIGN.md §3 C17",
+    ),
     "C07": (
         "post-condition oracle on readselection's result + invariant/temporal/conservation monitors on the interposed "
         "coverage monitor (cap after every insertion, check-before-insert, exactly-once charging) over generated and "
